@@ -259,7 +259,15 @@ func (r *runner) align(k kase, target, query []byte, comp bool) (hits, other dp.
 		q = own.NewSeq("q", alphabet.BytesToLetters(append([]byte(nil), query...)), alphabet.DNA)
 	}
 	r.m.Clear()
-	p := pals.New(t, q, k.Self, r.m, 0, nil, nil)
+	var lg *trapLogger
+	var p *pals.PALS
+	if k.Order == 7 {
+		lg = &trapLogger{}
+		p = pals.New(t, q, k.Self, r.m, 0, nil, lg)
+		lg.p = p
+	} else {
+		p = pals.New(t, q, k.Self, r.m, 0, nil, nil)
+	}
 	if k.Order == 4 {
 		// the index and the settings come from ANOTHER aligner over the same target, which has searched both
 		// strands of another query first (how cmd/pals spreads queries over workers)
@@ -322,7 +330,24 @@ func (r *runner) align(k kase, target, query []byte, comp bool) (hits, other dp.
 	if k.Order == 3 && err == nil {
 		hits, err = p.AlignFrom(p.Trapezoids(), comp)
 	}
+	if k.Order == 7 && err == nil {
+		hits, err = p.AlignFrom(lg.merged, comp)
+	}
 	return hits, other, err
+}
+
+// trapLogger is a Logger that looks at the aligner it belongs to: told that trapezoids were merged, it
+// keeps what Trapezoids() returns at that moment.
+type trapLogger struct {
+	p      *pals.PALS
+	merged filter.Trapezoids
+}
+
+func (l *trapLogger) Print(v ...interface{}) {}
+func (l *trapLogger) Printf(format string, v ...interface{}) {
+	if strings.HasPrefix(format, "Merged") {
+		l.merged = append(filter.Trapezoids{}, l.p.Trapezoids()...)
+	}
 }
 
 // sound applies the per-hit oracle to one hit of a search of the given strand.
@@ -458,7 +483,7 @@ func check(c *enum.Ctx, r *runner, k kase) {
 
 func run(c *enum.Ctx) {
 	pals.MaxKmerLen = 8
-	c.Rule("fixed backgrounds generated from constants (xorshift with constant seeds; 2 pair backgrounds of 1500/1300 letters, thorough 4 incl. one low-complexity; self: one sequence of 1700); (minHitLen,minId) in {(30,0.9),(50,0.9),(50,0.94),(80,0.85)} as accepted by Optimise with MaxKmerLen lowered to 8; a repeat of length L in {minHitLen+1, +2, +5, +10, 1.5 minHitLen, 3 minHitLen} planted at target positions {0, three interior, end} x 40 consecutive query positions (one full tube period) plus both query ends; variants: exact, a substitution at every third position, 2 and 3 substitutions, a deletion and an insertion of length 1-2 at every tenth position, reverse-complemented copies (complement-strand search), self comparison (also under the permissive settings (80,0.8),(100,0.8),(150,0.85) on sequences of 2000/3500 (5000) letters, where the filter is noisy next to the main diagonal, and at 64 consecutive sequence lengths = every position of the tube grid relative to the main diagonal); settings (400,0.94), (400,0.9), (600,0.8), (900,0.9), (1000,0.9), (1200,0.9) on 7000/4500 letters; a minimum identity of 0 (minimum lengths 60 and 100) with repeats of 87.5 %, 92 % and 95 % identity; targets of 2^k-1, 2^k, 2^k+1 (also 3*2^k, 10^j-1, 10^j, 10^j+1, 5*10^j) letters (k=11..14) and of 6000, 11000, 20000 letters with a comfortable repeat at the start, near it, in the middle and at the end; a query longer than the target (900 vs 1500) with copies before, around and beyond the length of the target; every reverse-complement case and every exact/sub2/sub3 case again as the second Align call on an aligner value that has already searched the other strand (both result sets judged), after a second, rejected Optimise(12, 0.5), through AlignFrom(Trapezoids()) after Align, after a first set-up and use for a minimum length four times as large, with index and settings taken over by Share from an aligner that searched another query, and on an aligner that searched both strands while its query object held other letters, overwritten in place afterwards (quick: alternating); soundness oracle on EVERY hit of every run; recall oracle for identity >= minId+0.05 and a core (the repeat without edits so close to an end that leaving them out scores at least as well: substitutions with < 5, indels of b with < 3b+2 letters beyond them) longer than minHitLen in both sequences; a hit must overlap half of the core in both; non-trivial = every run (each contains a planted repeat)")
+	c.Rule("fixed backgrounds generated from constants (xorshift with constant seeds; 2 pair backgrounds of 1500/1300 letters, thorough 4 incl. one low-complexity; self: one sequence of 1700); (minHitLen,minId) in {(30,0.9),(50,0.9),(50,0.94),(80,0.85)} as accepted by Optimise with MaxKmerLen lowered to 8; a repeat of length L in {minHitLen+1, +2, +5, +10, 1.5 minHitLen, 3 minHitLen} planted at target positions {0, three interior, end} x 40 consecutive query positions (one full tube period) plus both query ends; variants: exact, a substitution at every third position, 2 and 3 substitutions, a deletion and an insertion of length 1-2 at every tenth position, reverse-complemented copies (complement-strand search), self comparison (also under the permissive settings (80,0.8),(100,0.8),(150,0.85) on sequences of 2000/3500 (5000) letters, where the filter is noisy next to the main diagonal, and at 64 consecutive sequence lengths = every position of the tube grid relative to the main diagonal); settings (400,0.94), (400,0.9), (600,0.8), (900,0.9), (1000,0.9), (1200,0.9) on 7000/4500 letters; a minimum identity of 0 (minimum lengths 60 and 100) with repeats of 87.5 %, 92 % and 95 % identity; targets of 2^k-1, 2^k, 2^k+1 (also 3*2^k, 10^j-1, 10^j, 10^j+1, 5*10^j) letters (k=11..14) and of 6000, 11000, 20000 letters with a comfortable repeat at the start, near it, in the middle and at the end; a query longer than the target (900 vs 1500) with copies before, around and beyond the length of the target; every reverse-complement case and every exact/sub2/sub3 case again as the second Align call on an aligner value that has already searched the other strand (both result sets judged), after a second, rejected Optimise(12, 0.5), through AlignFrom(Trapezoids()) after Align, after a first set-up and use for a minimum length four times as large, with index and settings taken over by Share from an aligner that searched another query, and on an aligner that searched both strands while its query object held other letters, overwritten in place afterwards, and through AlignFrom seeded with the trapezoids a Logger took from Trapezoids() when told they were merged (quick: alternating); soundness oracle on EVERY hit of every run; recall oracle for identity >= minId+0.05 and a core (the repeat without edits so close to an end that leaving them out scores at least as well: substitutions with < 5, indels of b with < 3b+2 letters beyond them) longer than minHitLen in both sequences; a hit must overlap half of the core in both; non-trivial = every run (each contains a planted repeat)")
 	c.Assume("pals.MaxKmerLen is lowered to 8 by the harness (small index)", "identity comfortably above the threshold = at least 0.05 above")
 	work := os.Getenv("VERIF_WORK")
 	if work == "" {
@@ -653,7 +678,7 @@ func run(c *enum.Ctx) {
 			continue
 		}
 		n23++
-		for _, o := range []int{2, 3, 4, 5, 6} {
+		for _, o := range []int{2, 3, 4, 5, 6, 7} {
 			if c.Quick && n23%4 != o%4 && !(o == 6 && n23%4 == 1 && k.Rev) {
 				continue
 			}
